@@ -1382,7 +1382,27 @@ impl Sh {
 						self.stats.borrow_mut().reads += 1;
 						let m = self.model.borrow();
 						let ts = &abs_ts(*ts);
-						let want = m.get_at(&key, *ts, tm.horizon);
+						let mut want = m.get_at(&key, *ts, tm.horizon);
+						let retention = self.plan.opts.retention_ns;
+						if retention > 0 {
+							// the answering version may have aged out of the retention window and
+							// been dropped (unless it is the key's newest): then any older
+							// surviving version, or nothing, is a legitimate answer
+							let vs = m.versions(&key, tm.horizon);
+							let now = ip::advance_clock(0);
+							if let Some(best) = vs.iter().filter(|v| v.0 <= *ts).map(|v| v.0).max() {
+								let newest = vs.iter().map(|v| v.0).max() == Some(best);
+								if !newest && now.saturating_sub(best) + 500 > retention {
+									want.push(None);
+									for v in vs.iter().filter(|v| v.0 <= *ts) {
+										let a = if v.2 == Kind::SoftDelete { None } else { v.3.clone() };
+										if !want.contains(&a) {
+											want.push(a);
+										}
+									}
+								}
+							}
+						}
 						match txn.get_at(key.as_slice(), *ts) {
 							Ok(got) => {
 								if !want.contains(&got) {
@@ -1733,6 +1753,9 @@ impl Sh {
 			while ok && it.valid() {
 				let k = it.key();
 				let tombstone = k.is_tombstone();
+				if std::env::var("SKV_HDBG").is_ok() {
+					eprintln!("HDBG rev={} key={} seq={} ts={} tomb={} hard={} replace={}", rev, hex(k.user_key()), k.seq_num(), k.timestamp(), tombstone, k.is_hard_delete_marker(), k.is_replace());
+				}
 				let e = HistEntry {
 					key: k.user_key().to_vec(),
 					ts: k.timestamp(),
@@ -1776,6 +1799,74 @@ impl Sh {
 				}
 				want.push(HistEntry { key: k.clone(), ts, tombstone, value: val });
 			}
+		}
+		// finite retention: versions older than the window MAY have been dropped by a compaction
+		// (except the newest version of a key); versions inside it, and the newest, MUST be there,
+		// and nothing else may be listed
+		let retention = self.plan.opts.retention_ns;
+		if retention > 0 {
+			if limit.is_some() {
+				return;
+			}
+			let now = ip::advance_clock(0);
+			let ordered_ok = got.windows(2).all(|w| w[0].key < w[1].key || (w[0].key == w[1].key && w[0].ts >= w[1].ts));
+			let mut problem: Option<String> = None;
+			if !ordered_ok {
+				problem = Some("not ordered keys-ascending / newest-first".into());
+			}
+			// F10 (known finding): an aged-out REPLACE that is not the newest version of its key is
+			// dropped by compaction above the bottom level (the existing tests pin that) although
+			// versions it erased survive in a deeper level: they reappear in history. Explained
+			// only if every unexpected entry is a really written version of a key that has such a
+			// REPLACE after it.
+			let mut unexplained_extra = false;
+			let mut any_extra = false;
+			for (i, g) in got.iter().enumerate() {
+				if !want.contains(g) {
+					any_extra = true;
+					let written = m.commits.iter().filter(|c| c.status != Status::Failed && c.last_seq <= tm.horizon).any(|c| {
+						c.writes.iter().any(|w| w.key == g.key && w.ts.unwrap_or(c.commit_ts) == g.ts && w.kind != Kind::Delete && (w.kind == Kind::SoftDelete) == g.tombstone && (g.tombstone || w.value == g.value))
+					});
+					let newest_ts = m.versions(&g.key, tm.horizon).iter().map(|v| v.0).max();
+					let aged_replace_after = m.commits.iter().filter(|c| c.status != Status::Failed && c.last_seq <= tm.horizon).any(|c| {
+						c.writes.iter().any(|w| {
+							let t = w.ts.unwrap_or(c.commit_ts);
+							w.key == g.key && w.kind == Kind::Replace && t > g.ts && Some(t) != newest_ts && now.saturating_sub(t) + 500 > retention
+						})
+					});
+					if !(written && aged_replace_after) {
+						unexplained_extra = true;
+					}
+					problem = Some(format!("lists {}@{} which is not a retained version", hex(&g.key), g.ts - ip::SIM_EPOCH_NS.min(g.ts)));
+				}
+				if got[..i].contains(g) {
+					problem = Some(format!("lists {}@{} twice", hex(&g.key), g.ts - ip::SIM_EPOCH_NS.min(g.ts)));
+				}
+			}
+			for w in &want {
+				let newest = want.iter().filter(|x| x.key == w.key).map(|x| x.ts).max() == Some(w.ts);
+				// the newest version of a key in the whole history (not just in the range)
+				let newest_overall = m.versions(&w.key, tm.horizon).iter().map(|v| v.0).max() == Some(w.ts);
+				// (the store's logical clock is strictly monotonic: it can run a few ticks ahead of
+				// the simulated clock, hence the slack at the boundary)
+				let inside = now.saturating_sub(w.ts) + 500 <= retention;
+				if (inside || (newest && newest_overall)) && !got.contains(w) {
+					problem = Some(format!("misses {}@{} which is {} (now {}, retention {})", hex(&w.key), w.ts - ip::SIM_EPOCH_NS.min(w.ts), if inside { "inside the retention window" } else { "the newest version of its key" }, now - ip::SIM_EPOCH_NS.min(now), retention));
+				}
+			}
+			let mut missing_or_dup = false;
+			if let Some(p) = &problem {
+				missing_or_dup = !p.starts_with("lists ") || p.ends_with(" twice");
+			}
+			if let Some(p) = problem {
+				let explained = if any_extra && !unexplained_extra && !missing_or_dup && ordered_ok { Some("aged_out_replace_dropped_above_bottom".to_string()) } else { None };
+				let detail = format!("step {}: actor {} history [{}, {}) tomb={} ts_range={:?} rev={} at horizon {} (finite retention): {}", self.step_ix.get(), ai, hex(lo), hex(hi), tomb, ts_range, rev, tm.horizon, p);
+				let mut g = self.viol.borrow_mut();
+				if g.is_none() {
+					*g = Some(Violation { class: "history_mismatch".into(), detail, explained });
+				}
+			}
+			return;
 		}
 		let limited = limit.is_some();
 		let want_full = want.clone();
